@@ -112,6 +112,13 @@ JudgeLine(e, st) ==
             THEN IF obsAcc
                  THEN V("C08", "ill-formed line accepted (" \o ln.why \o ")")
                       \* a transmitted checksum value above 0xFF can equal no XOR of bytes: also a breach of the gate
+                      \* a numeric header field that is not a number in 0..255 cannot be "reported as transmitted"
+                      \cup (IF ln.why \in {"count", "number", "fill", "fill6", "comma4"}
+                            THEN V("C07", "sentence reported for a line whose numeric field is not a valid value (" \o ln.why \o ")") ELSE {})
+                      \* ... and if that sentence takes part in a fragment group, a group was continued / delivered
+                      \* by something that is not a validly numbered sentence
+                      \cup (IF Has(e, "s") /\ (e.s.n # 1 \/ e.s.k # 1)
+                            THEN V("C06", "ill-formed line accepted as a fragment (" \o ln.why \o ")") ELSE {})
                       \cup (IF ln.why = "hexrange" THEN V("C02", "line accepted although the transmitted checksum value exceeds 0xFF")
                            ELSE IF ln.why = "nohex" THEN V("C02", "line accepted although no hexadecimal value follows the '*'") ELSE {})
                  ELSE {}
